@@ -354,8 +354,9 @@ def gen_C10(chk):
 def check_C10(chk):
     build = vlib.build_repo("hooks")
     drv = vlib.build_driver("probe_format", build)
-    chk.prove(["Properties_C10.v"])
+    chk.prove(["Properties_C10.v", "Properties_Code_Percent.v"])
     chk.cov["trusted_base"] = TRUSTED_P + ["Printf.v: hand-written model of the printf conversions %%, %s, %d, %ld, %x, %lx, %02x (validated against libc by the correspondence run)",
+                                           "Properties_Code_Percent.v: double_all_percent_signs_in() with its three helpers (src/message_formatting.c), translated whole on every run, is proved to return Printf.double_percent of every text in a block of exactly the allocated size (CLite interpreter with byte-exact blocks; strchr, strlen, memcpy, strcpy, malloc are CLite.builtin models)",
                                            "harness/probe_format.c (expands format+arguments with vsnprintf as the text reporter's vprintf does), tools/check_pure.py",
                                            "modelled, not verified: snprintf truncation at message_size (the +512 slack), the x86-64 varargs ABI",
                                            "axioms: see coverage.print_assumptions"]
